@@ -321,10 +321,10 @@ def check_idle_pairs(run, rng, th):
                 grid.append((KC, KS, tau, d, M + tau + d + 15))            # the tightest T on the 15-tick grid
                 grid.append((KC, KS, tau, d, 5 * T))
     grid = [g for g in grid if idlesim.params_ok(*g)]
-    if not th:
-        grid = rng.sample(grid, 6)
+    grid = grid * 4 if th else rng.sample(grid, 6)
     for n, (KC, KS, tau, d, Tc) in enumerate(grid):
-        p = idlesim.random_session(run, rng, KC, KS, tau, d, Tc, 400 if th else 160, regular=(n % 3 == 0))
+        p = idlesim.random_session(run, rng, KC, KS, tau, d, Tc, 700 if th else 160, regular=(n % 3 == 0),
+                                   loss=(0.1 if n % 7 == 6 else 0.0))
         try:
             okp, adm = idle_pair_compare(run, p, tau, d, "pair%d" % n, cases, impl, margs)
             if okp and adm:
